@@ -2,6 +2,7 @@ import BufProofs.Lemmas.CaseLemmas
 import BufProofs.Lemmas.LintLemmas
 import BufProofs.Lemmas.LintSpec2
 import BufProofs.Lemmas.LintWitness
+import BufProofs.Lemmas.LintVersion
 /-
   C05 — Lint reports exactly the style violations that are present.
   Property theorems only; helper lemmas live in BufProofs/Lemmas/:
@@ -126,6 +127,62 @@ theorem version_table :
     versionForPackage false "a.v1alphabeta1".toList = none ∧
     versionForPackage false "a.v2147483648".toList = none ∧
     versionForPackage false "v1".toList = none := by decide
+
+/-- **Only the documented forms are versions** (ALL strings).  Whatever the parser accepts is `v`
+    followed by one of `N`, `N test <anything>`, `N (alpha|beta) [M]`, `N p Q (alpha|beta) [M]`, with the
+    stability of that form, where every number `N`, `Q`, `M` is what `strconv.ParseInt(s, 10, 32)`
+    reads: an optional sign and a non-empty run of DECIMAL digits (`IsNum`).  This is the general
+    lemma the alpha/beta/test/patch grammar lacked; together with `version_accepts_stable` and
+    `version_table` it pins the grammar from both sides.  Consequence: no digit separator, no
+    base prefix, no exponent — `v1_0`, `v0x1`, `v0b1`, `v0o7`, `v1e3` are not versions
+    (`version_near_miss_table`, `version_rejects_foreign_character`). -/
+theorem version_only_documented_forms (b : Bool) (s : Str) (v : PackageVersion)
+    (h : versionForComponent b s = some v) : ∃ rest, s = 'v' :: rest ∧ DocShape rest v.stability :=
+  versionForComponent_shape b s v h
+
+/-- a component containing a character that is neither a decimal digit nor one of
+    `v + - p a l h b e t`, and not containing "test", is never a version (either `allowV0`) -/
+theorem version_rejects_foreign_character (b : Bool) (s : Str) (x : Char) (hx : x ∈ s)
+    (hd : isDigit x = false) (hf : x ∉ versionAlphabet) (ht : contains "test".toList s = false) :
+    versionForComponent b s = none :=
+  versionForComponent_foreign b s x hx hd hf ht
+
+/-- near misses of the grammar (numbers in another notation, zero where ≥ 1 is demanded, a missing
+    part, the wrong case) and less common spellings of documented versions, by evaluation -/
+theorem version_near_miss_table :
+    versionForComponent false "v1_0".toList = none ∧ versionForComponent false "v1_1".toList = none ∧
+    versionForComponent false "v0x1".toList = none ∧ versionForComponent false "v0b1".toList = none ∧
+    versionForComponent false "v0o7".toList = none ∧ versionForComponent false "v1e3".toList = none ∧
+    versionForComponent false "v1alpha1_1".toList = none ∧ versionForComponent false "v1p1_0beta1".toList = none ∧
+    versionForComponent true "v0x0".toList = none ∧ versionForComponent true "v0_0".toList = none ∧
+    versionForComponent false "v00".toList = none ∧ versionForComponent false "v1alpha0".toList = none ∧
+    versionForComponent false "v1p0beta1".toList = none ∧ versionForComponent false "v1pbeta1".toList = none ∧
+    versionForComponent false "v1beta1alpha".toList = none ∧ versionForComponent false "V1".toList = none ∧
+    versionForComponent false "v1Alpha1".toList = none ∧
+    versionForComponent false "v01".toList = some ⟨1, .stable, 0, 0, []⟩ ∧
+    versionForComponent false "v011".toList = some ⟨11, .stable, 0, 0, []⟩ ∧
+    versionForComponent false "v1alpha".toList = some ⟨1, .alpha, 0, 0, []⟩ ∧
+    versionForComponent false "v3p1beta".toList = some ⟨3, .beta, 0, 1, []⟩ ∧
+    versionForComponent false "v001p01beta01".toList = some ⟨1, .beta, 1, 1, []⟩ ∧
+    versionForComponent false "v1test_1".toList = some ⟨1, .test, 0, 0, "_1".toList⟩ ∧
+    versionForComponent false "v7testalpha".toList = some ⟨7, .test, 0, 0, "alpha".toList⟩ := by decide
+
+-- non-vacuity of `version_only_documented_forms`: each of the four forms is reached
+example : ∃ v, versionForComponent false "v12".toList = some v ∧ v.stability = .stable :=
+  ⟨⟨12, .stable, 0, 0, []⟩, by decide, rfl⟩
+example : ∃ v, versionForComponent false "v1testfoo".toList = some v ∧ v.stability = .test :=
+  ⟨⟨1, .test, 0, 0, "foo".toList⟩, by decide, rfl⟩
+example : ∃ v, versionForComponent false "v1beta2".toList = some v ∧ v.stability = .beta :=
+  ⟨⟨1, .beta, 2, 0, []⟩, by decide, rfl⟩
+example : ∃ v, versionForComponent false "v1p2alpha3".toList = some v ∧ v.stability = .alpha :=
+  ⟨⟨1, .alpha, 3, 2, []⟩, by decide, rfl⟩
+-- and of `version_rejects_foreign_character`: the underscore of v1_0, the x of v0x1, the o of v0o7
+example : versionForComponent false "v1_0".toList = none :=
+  version_rejects_foreign_character false _ '_' (by decide) (by decide) (by decide) (by decide)
+example : versionForComponent false "v0x1".toList = none :=
+  version_rejects_foreign_character false _ 'x' (by decide) (by decide) (by decide) (by decide)
+example : versionForComponent true "v0o7".toList = none :=
+  version_rejects_foreign_character true _ 'o' (by decide) (by decide) (by decide) (by decide)
 
 /-! ## Lint: no false positives, imports skipped, complete nested visiting, exact planting -/
 
@@ -1472,6 +1529,25 @@ theorem plant_package_no_version (o : Options) (rules : List Rule) (w : Schema) 
   (plant_package o rules w f hclean hf _ hfresh hstable _).mpr
     (Or.inr (Or.inr (Or.inr (Or.inl ⟨hr, by simp, versionForPackage_no_v false pre c cs hc hnodot, rfl⟩))))
 
+/-- the version grammar composed with lint, near misses: a package whose last component contains a
+    character that no documented version form can contain outside a `test` suffix — the `_` of
+    `acme.weather.v1_0`, the `x` of `….v0x1`, the `o` of `….v0o7` — gets PACKAGE_VERSION_SUFFIX at
+    its package statement -/
+theorem plant_package_version_near_miss (o : Options) (rules : List Rule) (w : Schema) (f : File)
+    (hclean : cleanB o rules w = true) (hf : FileAt w f) (pre : Str) (c : Char) (cs : Str) (x : Char)
+    (hx : x ∈ c :: cs) (hd : isDigit x = false) (hforeign : x ∉ versionAlphabet)
+    (htest : contains "test".toList (c :: cs) = false) (hnodot : ∀ y ∈ c :: cs, y ≠ '.')
+    (hfresh : ∀ g ∈ nonImport w, g.path ≠ f.path → g.pkg ≠ pre ++ '.' :: c :: cs)
+    (hstable : .STABLE_PACKAGE_NO_IMPORT_UNSTABLE ∈ rules →
+      isStable (pre ++ '.' :: c :: cs) = none ∨ isStable (pre ++ '.' :: c :: cs) = isStable f.pkg)
+    (hr : .PACKAGE_VERSION_SUFFIX ∈ rules) :
+    (⟨.PACKAGE_VERSION_SUFFIX, f.path, [2]⟩ : Annotation) ∈
+      lint o rules (setPackage f.path (pre ++ '.' :: c :: cs) w) :=
+  (plant_package o rules w f hclean hf _ hfresh hstable _).mpr
+    (Or.inr (Or.inr (Or.inr (Or.inl ⟨hr, by simp, by
+      rw [versionForPackage_last_component false pre c cs hnodot]
+      exact versionForComponent_foreign false _ x hx hd hforeign htest, rfl⟩))))
+
 /-- the lower_snake_case grammar composed with lint: a package containing an upper-case letter
     gets PACKAGE_LOWER_SNAKE_CASE at its package statement -/
 theorem plant_package_upper_case (o : Options) (rules : List Rule) (w : Schema) (f : File)
@@ -1484,15 +1560,19 @@ theorem plant_package_upper_case (o : Options) (rules : List Rule) (w : Schema) 
     (Or.inr (Or.inr (Or.inl ⟨hr, fun e => by rw [e] at hc; simp at hc,
       pkgLowerSnake_ne_of_upper np c hc hu, rfl⟩)))
 
-/-- **Files of one package with differing language options.**  Giving option number `k` of one
-    file the value `v` (different from the value it had, which — the workspace being Clean — every
-    file of its package shares), while another target file has the same package: the
-    PACKAGE_SAME_<option> rule annotates EVERY target file of that package at its option (or
-    without location where the option is absent), and lint reports nothing else. -/
+/-- **Files of one package with differing language options.**  Writing the option statement `v`
+    (`none` = removing it, `some x` = `option <name> = x;`) for option number `k` of one file, such
+    that the VALUE the rule extracts (`v.getD ""`: an unset option and an explicit empty string are
+    one value; an explicit `java_multiple_files = false` is the value "false", different from unset)
+    differs from the value the file had — which, the workspace being Clean, every file of its
+    package shares —, while another target file has the same package: the PACKAGE_SAME_<option>
+    rule annotates EVERY target file of that package at its option statement (or without location
+    where the file has no such statement — decided by presence, not by value), and lint reports
+    nothing else. -/
 theorem plant_lang_option (o : Options) (rules : List Rule) (w : Schema) (f : File)
     (hclean : cleanB o rules w = true) (hf : FileAt w f)
     (r0 : Rule) (k : Nat) (hk : optIndex r0 = some k) (hr : r0 ∈ rules)
-    (v : Str) (hlen : k < f.langOpts.length) (hv : v ≠ optVal f k)
+    (v : Option Str) (hlen : k < f.langOpts.length) (hv : v.getD [] ≠ optVal f k)
     (hother : ∃ g0 ∈ nonImport w, g0.path ≠ f.path ∧ g0.pkg = f.pkg) (a : Annotation) :
     a ∈ lint o rules (setLangOpt f.path k v w) ↔
       ∃ g ∈ nonImport (setLangOpt f.path k v w), g.pkg = f.pkg ∧ a = ann r0 g (optLoc g k) := by
@@ -1501,7 +1581,7 @@ theorem plant_lang_option (o : Options) (rules : List Rule) (w : Schema) (f : Fi
   rw [mem_lint_of_dirty o rules _ [r0]]
   · have hc := cleanB_rule hclean hr
     rw [cleanRule_optRule o w r0 k hk, groupClean_iff] at hc
-    have hfv : optVal (setOpt k v f) k = v := optVal_setOpt_eq k v f hlen
+    have hfv : optVal (setOpt k v f) k = v.getD [] := optVal_setOpt_eq k v f hlen
     unfold setLangOpt
     constructor
     · rintro ⟨r, _, hd, ha⟩
@@ -1547,6 +1627,62 @@ theorem plant_lang_option (o : Options) (rules : List Rule) (w : Schema) (f : Fi
       have h2 := optRule_of_optIndex r0 i hk
       rw [h1] at h2
       exact hnd (Option.some.inj h2)
+
+/-- **Same value, other spelling: silent.**  Rewriting the option statement number `k` of one
+    file so that the VALUE the rule extracts stays what it was — `option go_package = "";` where the
+    option was unset, or removing an explicit empty string — keeps a Clean workspace Clean for every
+    rule: lint reports nothing.  (For java_multiple_files there is no such respelling: "true" and
+    "false" are values of their own, `none` is the only statement with the value "" —
+    `java_multiple_files_false_is_a_value`.) -/
+theorem plant_lang_option_same_value_silent (o : Options) (rules : List Rule) (w : Schema) (f : File)
+    (hclean : cleanB o rules w = true) (hf : FileAt w f) (k : Nat) (v : Option Str)
+    (hlen : k < f.langOpts.length) (hv : v.getD [] = optVal f k) :
+    lint o rules (setLangOpt f.path k v w) = [] := by
+  apply clean_no_annotations
+  unfold cleanB
+  rw [List.all_eq_true]
+  intro r hr
+  have hc := cleanB_rule hclean hr
+  have hkh : KeepsHdr (setOpt k v) := keepsHdr_of_rfl _ (fun _ => rfl) (fun _ => rfl) (fun _ => rfl) (fun _ => rfl)
+  unfold setLangOpt
+  cases he : elemRule r with
+  | some er =>
+    apply frame_fileOp_elem o w f hf (setOpt k v) (fun _ => rfl) (keepsDecls_setOpt k v) r er he _ hc
+    intro hfr
+    cases r <;> simp [isFileRule] at hfr <;> simp only [fileLocalGood, elemRule] <;> exact id
+  | none =>
+    by_cases hk : optIndex r = some k
+    · rw [cleanRule_optRule o _ r k hk]
+      rw [cleanRule_optRule o w r k hk] at hc
+      apply groupClean_plant w f hf (setOpt k v) (fun _ => rfl) _ _ hc
+      intro g hg _ e
+      rw [optVal_setOpt_eq k v f hlen, hv]
+      rw [groupClean_iff] at hc
+      exact hc g hg f hf.nonImport e
+    · apply frame_fileOp_global o w f.path (setOpt k v) hkh (keepsDecls_setOpt k v) r he _ hc
+      intro i hi g
+      apply optVal_setOpt_ne
+      intro e
+      subst e
+      exact hk hi
+
+/-- An explicit `option java_multiple_files = false;` is a VALUE for PACKAGE_SAME_JAVA_MULTIPLE_FILES,
+    different from "no value" (as coded: "" is returned only when the descriptor field is nil):
+    the extractor separates the three spellings, while for a string option the unset option and the
+    explicit empty string are one value — told apart only by where the annotation is put. -/
+theorem java_multiple_files_false_is_a_value (f g h : File)
+    (hf : optRaw f 2 = none) (hg : optRaw g 2 = some "false".toList) (hh : optRaw h 2 = some "true".toList) :
+    optVal f 2 ≠ optVal g 2 ∧ optVal g 2 ≠ optVal h 2 ∧ optVal f 2 ≠ optVal h 2 ∧
+      optLoc f 2 = [] ∧ optLoc g 2 = [8, 10] ∧ optLoc h 2 = [8, 10] := by
+  unfold optVal optLoc
+  rw [hf, hg, hh]
+  decide
+
+theorem string_option_empty_is_unset (f g : File) (k : Nat) (hf : optRaw f k = none) (hg : optRaw g k = some []) :
+    optVal f k = optVal g k ∧ optLoc f k = [] ∧ optLoc g k = [8, optFieldNumber k] := by
+  unfold optVal optLoc
+  rw [hf, hg]
+  exact ⟨rfl, rfl, rfl⟩
 
 /-- **Moving / renaming one file** (a file that no other file imports) to the path `np`.
     The annotations are exactly: FILE_LOWER_SNAKE_CASE if the new base name is not lower_snake_case;
@@ -1831,6 +1967,12 @@ example : (⟨.PACKAGE_VERSION_SUFFIX, pA.path, [2]⟩ : Annotation) ∈
   plant_package_no_version {} Rule.all pw pA pw_clean pA_at "acme".toList 'f' "oo_nv".toList (by decide) (by decide)
     (by decide) (fun _ => Or.inl (by decide)) (by decide)
 
+-- acme.foo.v1_0: the underscore makes the last component a near miss, not a version
+example : (⟨.PACKAGE_VERSION_SUFFIX, pA.path, [2]⟩ : Annotation) ∈
+    lint {} Rule.all (setPackage pA.path ("acme.foo".toList ++ '.' :: 'v' :: "1_0".toList) pw) :=
+  plant_package_version_near_miss {} Rule.all pw pA pw_clean pA_at "acme.foo".toList 'v' "1_0".toList '_'
+    (by decide) (by decide) (by decide) (by decide) (by decide) (by decide) (fun _ => Or.inl (by decide)) (by decide)
+
 example : (⟨.PACKAGE_LOWER_SNAKE_CASE, pA.path, [2]⟩ : Annotation) ∈
     lint {} Rule.all (setPackage pA.path "Acme.foo.v1".toList pw) :=
   plant_package_upper_case {} Rule.all pw pA pw_clean pA_at "Acme.foo.v1".toList 'A' (by decide) (by decide)
@@ -1838,19 +1980,63 @@ example : (⟨.PACKAGE_LOWER_SNAKE_CASE, pA.path, [2]⟩ : Annotation) ∈
 
 -- files of one package with differing go_package: every file of the package is annotated
 example : (⟨.PACKAGE_SAME_GO_PACKAGE, pB.path, [8, 11]⟩ : Annotation) ∈
-    lint {} Rule.all (setLangOpt pA.path 1 "example.com/other".toList pw) :=
+    lint {} Rule.all (setLangOpt pA.path 1 (some "example.com/other".toList) pw) :=
   (plant_lang_option {} Rule.all pw pA pw_clean pA_at .PACKAGE_SAME_GO_PACKAGE 1 rfl (by decide)
     _ (by decide) (by decide) ⟨pB, pB_mem, by decide, by decide⟩ _).mpr ⟨pB, .tail _ (.head _), by decide, rfl⟩
 
-example : lint {} Rule.all (setLangOpt pA.path 1 "example.com/other".toList pw) =
+example : lint {} Rule.all (setLangOpt pA.path 1 (some "example.com/other".toList) pw) =
     [⟨.PACKAGE_SAME_GO_PACKAGE, pA.path, [8, 11]⟩, ⟨.PACKAGE_SAME_GO_PACKAGE, pB.path, [8, 11]⟩] := by decide
 
 -- …and the other direction of the ↔: NOTHING but that rule is reported
-example (a : Annotation) (h : a ∈ lint {} Rule.all (setLangOpt pA.path 1 "example.com/other".toList pw)) :
+example (a : Annotation) (h : a ∈ lint {} Rule.all (setLangOpt pA.path 1 (some "example.com/other".toList) pw)) :
     a.rule = .PACKAGE_SAME_GO_PACKAGE := by
   obtain ⟨g, _, _, rfl⟩ := (plant_lang_option {} Rule.all pw pA pw_clean pA_at .PACKAGE_SAME_GO_PACKAGE 1 rfl (by decide)
     _ (by decide) (by decide) ⟨pB, pB_mem, by decide, by decide⟩ a).mp h
   rfl
+
+-- the VALUE SPACE of a grouping rule on the two-file package of `pw` (go_package is set to the
+-- same non-default value in both files, every other option is unset in both):
+-- unset vs EXPLICIT FALSE of java_multiple_files: a conflict, both files annotated — the file with the
+-- statement at the statement, the other one without location
+example : lint {} Rule.all (setLangOpt pA.path 2 (some "false".toList) pw) =
+    [⟨.PACKAGE_SAME_JAVA_MULTIPLE_FILES, pA.path, [8, 10]⟩, ⟨.PACKAGE_SAME_JAVA_MULTIPLE_FILES, pB.path, []⟩] := by decide
+
+example : (⟨.PACKAGE_SAME_JAVA_MULTIPLE_FILES, pB.path, []⟩ : Annotation) ∈
+    lint {} Rule.all (setLangOpt pA.path 2 (some "false".toList) pw) :=
+  (plant_lang_option {} Rule.all pw pA pw_clean pA_at .PACKAGE_SAME_JAVA_MULTIPLE_FILES 2 rfl (by decide)
+    _ (by decide) (by decide) ⟨pB, pB_mem, by decide, by decide⟩ _).mpr ⟨pB, .tail _ (.head _), by decide, rfl⟩
+
+-- explicit false vs explicit true
+example : lint {} Rule.all (setLangOpt pB.path 2 (some "true".toList) (setLangOpt pA.path 2 (some "false".toList) pw)) =
+    [⟨.PACKAGE_SAME_JAVA_MULTIPLE_FILES, pA.path, [8, 10]⟩, ⟨.PACKAGE_SAME_JAVA_MULTIPLE_FILES, pB.path, [8, 10]⟩] := by decide
+
+-- all equal explicit (false in both files): silent
+example : lint {} Rule.all (setLangOpt pB.path 2 (some "false".toList) (setLangOpt pA.path 2 (some "false".toList) pw)) = [] := by
+  decide
+
+-- unset vs explicit EMPTY STRING of a string option: one value, silent (theorem and evaluation)
+example : lint {} Rule.all (setLangOpt pA.path 0 (some []) pw) = [] :=
+  plant_lang_option_same_value_silent {} Rule.all pw pA pw_clean pA_at 0 (some []) (by decide) (by decide)
+
+example : lint {} Rule.all (setLangOpt pA.path 0 (some []) pw) = [] := by decide
+
+-- explicit empty string vs a non-default value: a conflict; the file with `option go_package = "";`
+-- is annotated AT that statement (presence decides the location, not the value)
+example : lint {} Rule.all (setLangOpt pA.path 1 (some []) pw) =
+    [⟨.PACKAGE_SAME_GO_PACKAGE, pA.path, [8, 11]⟩, ⟨.PACKAGE_SAME_GO_PACKAGE, pB.path, [8, 11]⟩] := by decide
+
+-- non-default vs unset (the statement removed from one file)
+example : lint {} Rule.all (setLangOpt pA.path 1 none pw) =
+    [⟨.PACKAGE_SAME_GO_PACKAGE, pA.path, []⟩, ⟨.PACKAGE_SAME_GO_PACKAGE, pB.path, [8, 11]⟩] := by decide
+
+-- go_package differing in case only: a conflict (values are compared as strings)
+example : lint {} Rule.all (setLangOpt pA.path 1 (some "example.com/Foo/v1;foov1".toList) pw) =
+    [⟨.PACKAGE_SAME_GO_PACKAGE, pA.path, [8, 11]⟩, ⟨.PACKAGE_SAME_GO_PACKAGE, pB.path, [8, 11]⟩] := by decide
+
+example : ∃ f g h : File, optRaw f 2 = none ∧ optRaw g 2 = some "false".toList ∧ optRaw h 2 = some "true".toList :=
+  ⟨pA, (setOpt 2 (some "false".toList) pA), (setOpt 2 (some "true".toList) pA), by decide, by decide, by decide⟩
+
+example : ∃ f g : File, optRaw f 0 = none ∧ optRaw g 0 = some [] := ⟨pA, setOpt 0 (some []) pA, by decide, by decide⟩
 
 -- moving a.proto to a directory that does not match its package: the package now lives in two
 -- directories, both files are annotated
